@@ -8,9 +8,9 @@ Local Open Scope Z_scope.
 Record prims_ok (P : prims) : Prop := {
   ok_blk     : (0 < blklen P)%nat;
   ok_mac_len : forall x, length (mac P x) = maclen P;
-  ok_dec_enc : forall h p, c_dec P h (c_enc P h p) = p;
+  ok_dec_enc : forall h p, isbytes p -> c_dec P h (c_enc P h p) = p;
   ok_enc_len : forall h p, length (c_enc P h p) = length p;
-  ok_enc_byte: forall h p, Forall (fun b => (b < 256)%N) (c_enc P h p)
+  ok_enc_byte: forall h p, isbytes p -> isbytes (c_enc P h p)
 }.
 
 Theorem frag_invariance P c nonce evs os st pipe : (0 < blklen P)%nat ->
@@ -42,6 +42,22 @@ Proof.
   rewrite <- (frag_invariance _ _ _ _ _ _ _ B R), F.
   rewrite (deliveries_honest P c iv iv ML DE EL EB (fun _ => eq_refl) IL ms w sst S).
   apply (expected_nonneg P c iv IL). exact NN.
+Qed.
+
+(* ... and once the receiver has read everything and holds no complete record, all of them have been delivered *)
+Theorem roundtrip_complete P c iv ms w sst evs os st :
+  prims_ok P -> length iv = blklen P ->
+  (encr c = true -> Forall (fun m => 0 <= m) ms) ->
+  send_all P c iv (sstate0 c iv) ms = Some (w, sst) ->
+  fed evs = w ->
+  run P c iv rstate0 [] evs = (os, st, []) ->
+  first_record (eff_maclen P c) (r_buf st) = None ->
+  delivered os = ms.
+Proof.
+  intros OK IL NN S F R Q.
+  pose proof (channel_roundtrip P c iv ms w sst evs os st [] OK IL NN S F R) as H.
+  destruct (frag_invariant P c iv evs rstate0 [] os st [] (wf0 P c (ok_blk _ OK)) R) as [_ W].
+  rewrite (settled P c iv st W Q), app_nil_r in H. exact H.
 Qed.
 
 (* the stream itself, without a schedule *)
